@@ -336,6 +336,7 @@ class Executor:
         self.used_funcs = set()
         self.hash_log = []
         self.sched_points = 0
+        self.preemptions = 0
         self.notes = []
 
     # ---------------------------------------------------------------- solver
@@ -864,9 +865,18 @@ class Executor:
                 g.status = "done"
         runnable = [g for g in self.gs if g.status == "run"]
         if not runnable:
+            st = [g for g in self.gs if g.status == "settle"]
+            if st:
+                for g in st:
+                    g.status = "run"
+                runnable = st
+        if not runnable:
             if main.status == "done":
                 return False
-            raise PathEnd("blocked", "deadlock: " + "; ".join("%s:%s" % (g.name, g.status) for g in self.gs))
+            tape = None
+            if self.check() == z3.sat:
+                tape = self.model_tape(self.solver.model())
+            raise PathEnd("blocked", {"msg": "deadlock: " + "; ".join("%s:%s@%s" % (g.name, g.status, (g.wait or {}).get("where", "")) for g in self.gs), "tape": tape})
         if len(runnable) == 1:
             self.cur = runnable[0]
             return True
